@@ -236,3 +236,58 @@ pub fn full_rank(rows: &[Vec<f64>]) -> bool {
     }
     oracle::ileading_minors(&s).iter().all(|d| *d > 0)
 }
+
+// ------------------------------------------------------------------------------------------------
+// round 4: larger from-data instances (d = 8, 12 columns; m = d+2 .. d+4 rows), small spread
+
+/// names of the deterministic row designs of `big_data_rows`
+pub const BIG_DESIGNS: &[&str] = &["unit rows + extras", "rounded cosines", "staircase + extras", "residues"];
+
+/// The `design`-th deterministic data set with m rows and d columns (m >= d + 2), small integer
+/// entries. Every design has a well-conditioned sample covariance (checked by the harness).
+pub fn big_data_rows(d: usize, m: usize, design: usize) -> Vec<Vec<f64>> {
+    assert!(m >= d + 2 && m <= d + 4);
+    let extras: Vec<Vec<f64>> = vec![
+        vec![1.0; d],
+        (0..d).map(|j| if j % 2 == 0 { 1.0 } else { -1.0 }).collect(),
+        (0..d).map(|j| (j % 3) as f64 - 1.0).collect(),
+        (0..d).map(|j| if j % 4 < 2 { -1.0 } else { 2.0 }).collect(),
+    ];
+    match design {
+        // the d unit vectors, then the first m-d of: ones, alternating, (j mod 3)-1, blocks of (-1,-1,2,2)
+        0 => {
+            let mut rows: Vec<Vec<f64>> = (0..d).map(|k| (0..d).map(|j| if j == k { 1.0 } else { 0.0 }).collect()).collect();
+            rows.extend(extras.into_iter().take(m - d));
+            rows
+        }
+        // x_kj = round(2 cos(pi (2k+1)(j+1) / (2m))): rounded, nearly orthogonal cosine columns
+        1 => (0..m).map(|k| (0..d).map(|j| (2.0 * (std::f64::consts::PI * ((2 * k + 1) * (j + 1)) as f64 / (2 * m) as f64).cos()).round() + 0.0).collect()).collect(),
+        // rows 0, e0, e0+e1, ..., e0+..+e(d-1) (d+1 rows), then the first m-d-1 extras
+        2 => {
+            let mut rows: Vec<Vec<f64>> = (0..=d).map(|k| (0..d).map(|j| if j < k { 1.0 } else { 0.0 }).collect()).collect();
+            rows.extend(extras.into_iter().skip(1).take(m - d - 1));
+            rows
+        }
+        // x_kj = ((k*k + (j+1)*k + 2j) mod 5) - 2
+        3 => (0..m).map(|k| (0..d).map(|j| ((k * k + (j + 1) * k + 2 * j) % 5) as f64 - 2.0).collect()).collect(),
+        other => panic!("unknown data design {}", other),
+    }
+}
+
+/// names of the column scalings of `big_data_colscale`
+pub const BIG_COLSCALES: &[&str] = &["x1", "x0.01", "x2^-7", "x0.01*2^-(j mod 3)", "x2^-10"];
+
+/// Per-column factors: the integer designs have column variances of about 0.1 .. 2, so the factors
+/// 0.01 and 2^-7 give variances of about 1e-5 .. 2e-4, 2^-10 about 1e-7 .. 2e-6; "x1" is the control.
+pub fn big_data_colscale(variant: usize, d: usize) -> Vec<f64> {
+    (0..d)
+        .map(|j| match variant {
+            0 => 1.0,
+            1 => 0.01,
+            2 => 1.0 / 128.0,
+            3 => 0.01 / (1u32 << (j % 3)) as f64,
+            4 => 1.0 / 1024.0,
+            other => panic!("unknown column scaling {}", other),
+        })
+        .collect()
+}
